@@ -9,7 +9,8 @@ Inductive uq :=
 | QStr (bytes : list N)        (* a valid string through len / chars / count / nth *)
 | QSum (lo hi : N)             (* checksum over all valid scalars in [lo, hi) *)
 | QProg (k : sel) (cs : list N)  (* an Aelys program observing the string utf8 cs; k = loop opcode selected *)
-| QNat (cs ps : list N).         (* an Aelys program calling the character natives on utf8 cs, pad string utf8 ps *)
+| QNat (cs ps : list N)          (* an Aelys program calling the character natives on utf8 cs, pad string utf8 ps *)
+| QRecycle (cs : list N).       (* char_len / for-each / indexing observed three times with other one-character strings produced (and collected) in between *)
 
 Definition zn (n : nat) : Z := Z.of_nat n.
 Definition zs (l : list N) : list Z := map Z.of_N l.
@@ -93,6 +94,15 @@ Definition nat_obs (cs ps : list N) : list Z :=
   ++ map (nat_byte_at s) [-1; 0; bl - 1; bl]
   ++ map (fun needle => nat_find s (utf8 needle)) (find_needles cs).
 
+(* one observation round: char_len, the for-each items, s[0 .. char_len-1]; the garbage collector and
+   whatever other strings the program makes in between are not inputs of any of the three paths *)
+Definition recycle_round (cs : list N) : list Z :=
+  let s := utf8 cs in
+  let its := items (for_each s) in
+  let idx := map (fun i => match load_char s (Z.of_nat i) with LoadOk it => it | LoadIndexOutOfBounds => [] end) (upto (char_len s)) in
+  [zn (char_len s); zn (length its)] ++ concat (map framed its) ++ [zn (length idx)] ++ concat (map framed idx).
+Definition recycle_obs (cs : list N) : list Z := recycle_round cs ++ recycle_round cs ++ recycle_round cs.
+
 Definition uobs (q : uq) : list Z :=
   match q with
   | QEnc c => enc_obs c
@@ -100,4 +110,5 @@ Definition uobs (q : uq) : list Z :=
   | QSum lo hi => sum_obs lo hi
   | QProg k cs => prog_obs k cs
   | QNat cs ps => nat_obs cs ps
+  | QRecycle cs => recycle_obs cs
   end.
